@@ -77,6 +77,7 @@ fn build(nb: usize, shape: usize, bits: u32, entry: usize, exit: usize, base: u6
     cfg
 }
 
+fn deep() -> bool { std::env::var("VERIF_TIER").map(|t| t == "thorough").unwrap_or(false) } // thorough tier: wider bounds
 fn main() {
     std::panic::set_hook(Box::new(|_| {}));
     let mut found = 0usize;
@@ -96,7 +97,7 @@ fn main() {
     // ---- merge: every graph with <= 3 blocks
     for nb in 1..=3usize {
         for shape in 0..3usize.pow(nb as u32) { for bits in 0u32..(1u32 << (nb * nb)) { for entry in 0..nb { for exit in 0..nb {
-            if nb == 3 && (bits as usize + shape + entry * 7 + exit) % 2 != 0 { continue; }
+            if nb == 3 && !deep() && (bits as usize + shape + entry * 7 + exit) % 2 != 0 { continue; }
             let desc = format!("blocks={} shape={} edges={:#b} entry={} exit={}", nb, shape, bits, entry, exit);
             let mut cfg = build(nb, shape, bits, entry, exit, 100);
             if let Err(e) = consistent(&cfg) { report!("construct", desc, e, "consistent"); continue; }
@@ -120,7 +121,7 @@ fn main() {
     let mut small: Vec<(usize, usize, u32, usize, usize)> = vec![];
     for nb in 1..=2usize { for shape in 0..3usize.pow(nb as u32) { for bits in 0u32..(1u32 << (nb * nb)) { for entry in 0..nb { for exit in 0..nb { small.push((nb, shape, bits, entry, exit)); } } } } }
     for (gi, g) in small.iter().enumerate() { for (hi, h) in small.iter().enumerate() {
-        if (gi * 31 + hi) % 3 != 0 { continue; }
+        if !deep() && (gi * 31 + hi) % 3 != 0 { continue; }
         let desc = format!("g=(blocks={} shape={} edges={:#b} entry={} exit={}) h=(blocks={} shape={} edges={:#b} entry={} exit={})", g.0, g.1, g.2, g.3, g.4, h.0, h.1, h.2, h.3, h.4);
         let gcfg = build(g.0, g.1, g.2, g.3, g.4, 100);
         let hcfg = build(h.0, h.1, h.2, h.3, h.4, 200);
